@@ -70,10 +70,24 @@ def set_array_name_format(value):
     _array_name_format = value
 
 
-_any_dtype = object()
+class _Sentinel:
+    # These sentinels are compared by identity. Reducing to the name of the module-level
+    # global means that pickle/copy/deepcopy (including by-value pickling of annotation
+    # classes, as done by cloudpickle) give back the very same object.
+    def __init__(self, name: str):
+        self._name = name
 
-_anonymous_dim = object()
-_anonymous_variadic_dim = object()
+    def __reduce__(self):
+        return self._name
+
+    def __repr__(self):
+        return self._name
+
+
+_any_dtype = _Sentinel("_any_dtype")
+
+_anonymous_dim = _Sentinel("_anonymous_dim")
+_anonymous_variadic_dim = _Sentinel("_anonymous_variadic_dim")
 
 
 class _DimType(enum.Enum):
